@@ -356,3 +356,52 @@ Example C04_nonvacuous_regression_limit_feature :
             *m (own_Q 2 1 1 e0 false)^T].
 Proof. exact ex_c04_reglimit_feature. Qed.
 Print Assumptions C04_nonvacuous_regression_limit_feature.
+
+(* =============================================================================================
+   Round 5: a FRACTIONAL n_components (0 < f < 1, full solver).  Model/PCovRFrac.v mirrors
+   _decompose_full: explained-variance ratios of ALL eigenvalues of the modified matrix, their
+   cumulative sums, np.searchsorted(..., side="right") + 1.  Exact model over Q (below) and on
+   binary64 (resolve_f, run against the implementation's n_components_ on every check).
+   (Coq.Lists.List and QArith names are qualified: ssreflect's seq shadows nth / length.)     *)
+From Coq Require QArith.
+Local Notation q_of z p := (QArith_base.Qmake (BinInt.Z.of_nat z%N) (BinPos.Pos.of_nat p%N)).
+From Verif Require PCovRFrac PCovRFracP.
+
+(* the resolved k is the SMALLEST k >= 1 whose cumulative explained-variance ratio exceeds f:
+   every shorter prefix has ratio <= f, the prefix of length k has ratio > f, no smaller k does *)
+Theorem C04_fraction_resolution :
+  forall (f : QArith_base.Q) (sv : list QArith_base.Q) (n1 : QArith_base.Q),
+    let c := PCovRFrac.ratio_cumsum_q sv n1 in
+    let k := PCovRFrac.resolve_q f sv n1 in
+    Peano.le 1%N k
+    /\ (forall j, Peano.lt (S j) k -> QArith_base.Qle (List.nth j c (q_of 0 1)) f)
+    /\ (Peano.le k (List.length c) ->
+        QArith_base.Qlt f (List.nth (Nat.sub k 1%N) c (q_of 0 1)))
+    /\ (forall k', Peano.le 1%N k' /\ Peano.le k' (List.length c) ->
+        QArith_base.Qlt f (List.nth (Nat.sub k' 1%N) c (q_of 0 1)) -> Peano.le k k').
+Proof. exact PCovRFracP.resolve_q_spec. Qed.
+Print Assumptions C04_fraction_resolution.
+
+(* as soon as some cumulative ratio exceeds f (the last one is 1), k is at most the number of
+   eigenvalues: the slices U[:, :k], S[:k], Vt[:k] are full *)
+Theorem C04_fraction_bound :
+  forall (f : QArith_base.Q) (sv : list QArith_base.Q) (n1 : QArith_base.Q) (i : nat),
+    let c := PCovRFrac.ratio_cumsum_q sv n1 in
+    Peano.lt i (List.length c) -> QArith_base.Qlt f (List.nth i c (q_of 0 1)) ->
+    Peano.le (PCovRFrac.resolve_q f sv n1) (List.length c)
+    /\ List.length c = List.length sv.
+Proof.
+  move=> f sv n1 i c hi hf; split; first exact: (PCovRFracP.resolve_q_bound f sv n1 i hi hf).
+  exact: PCovRFracP.ratio_cumsum_q_length.
+Qed.
+Print Assumptions C04_fraction_bound.
+
+(* non-vacuity and the side="right" corner: eigenvalues 5,3,1,1, f = 9/10 -> 4 components (the
+   third cumulative ratio EQUALS f and still counts as "<= f"), f = 89/100 -> 3 *)
+Example C04_nonvacuous_fraction :
+  PCovRFrac.resolve_q (q_of 9 10)
+    (List.map (fun z => q_of z 1) (5 :: 3 :: 1 :: 1 :: nil)%N) (q_of 3 1) = 4%N
+  /\ PCovRFrac.resolve_q (q_of 89 100)
+    (List.map (fun z => q_of z 1) (5 :: 3 :: 1 :: 1 :: nil)%N) (q_of 3 1) = 3%N.
+Proof. by vm_compute. Qed.
+Print Assumptions C04_nonvacuous_fraction.
